@@ -182,6 +182,7 @@ fn history_case(ctx: &mut Ctx, case: u64, rng: &mut Rng, scratch: &Scratch) {
     let mut last_ts: BTreeMap<(usize, [u8; 32]), u64> = BTreeMap::new();
     let mut trace = vec![];
     let mut step = 0;
+    let sparse = rng.chance(1, 3);
     while let Some((d, e)) = pending.pop() {
         step += 1;
         let ns = unis[d].ns.id();
@@ -206,6 +207,12 @@ fn history_case(ctx: &mut Ctx, case: u64, rng: &mut Rng, scratch: &Scratch) {
             last_ts.insert((d, ev.author), ev.ts.max(*last_ts.get(&(d, ev.author)).unwrap_or(&0)));
         }
         trace.push(format!("doc{d} {} -> {:?}", ev.short(), r));
+        // the dump below commits the open write batch; in a sparse history most steps are not
+        // observed, so that several offers (and removals) share one uncommitted batch
+        if sparse && !pending.is_empty() && !rng.chance(1, 3) {
+            ctx.count("steps_not_observed_(batch_left_open)", 1);
+            continue;
+        }
         // monitor: heads == per-author maximum over the actual dump, for both documents
         for (dd, u) in unis.iter().enumerate() {
             let id = u.ns.id();
